@@ -324,7 +324,8 @@ pub fn run_item(prop: &str, tier: &str, idx: usize, only: Option<&Value>) -> MRe
         let c0 = canon(&s0);
         states.insert(hash64(&format!("{:?}", c0)));
         for path in &sc.paths {
-            for op in ops_for(prop, path, sc.thorough) {
+            for mut op in ops_for(prop, path, sc.thorough) {
+                if op.api != "c" { op.via = api_flavour(prop, item_idx); }
                 if let Some(o) = only { let want: Op = serde_json::from_value(o["op"].clone()).map_err(|e| Mach(format!("bad replay op: {}", e)))?; if want != op { continue; } }
                 if norenameat2 && op.name != "rename" { continue; }
                 let replay = json!({"engine": "mutmc", "item": item_idx, "tree_idx": ti, "tree": tree.text(), "op": op});
@@ -461,7 +462,7 @@ pub fn report(prop: &str, tier: &str) -> Report {
     };
     Report {
         level: if prop == "C04" { "exploration" } else { "model_checking" },
-        rule: format!("{} trees x {} path spellings (all sequences of <=2{} components over {{a,b,x,.,..}} with leading/trailing '/', '', '/', '//', empty and dot components, missing intermediate components) x {} ({} ops per path) x backends {{openat2, emulated}}; every case on a freshly built tree; {}; states = distinct canonical trees reached, transitions = operation applications; non-trivial = the operation changed the tree or failed",
+        rule: format!("{} trees x {} path spellings (all sequences of <=2{} components over {{a,b,x,.,..}} with leading/trailing '/', '', '/', '//', empty and dot components, missing intermediate components) x {} ({} ops per path) x backends {{openat2, emulated}}; every case on a freshly built tree; Rust API flavour (RootRef, owned Root, clone of either) rotated over the work items; {}; states = distinct canonical trees reached, transitions = operation applications; non-trivial = the operation changed the tree or failed",
             sc.trees.len(), sc.paths.len(), if sc.thorough { "(+selected 3)" } else { "" }, what, nops,
             if prop == "C04" { "oracle: the two backends against each other (outcome class, errno, resulting tree, returned descriptor)" } else { "oracle: a twin tree on which the harness resolves the parent with openat2(RESOLVE_IN_ROOT) and issues the single raw *at call (rm -r / mkdir -p for C13/C12): same errno, isomorphic resulting filesystem including everything outside the root" }),
         assumptions: vec!["Linux 6.18 tmpfs semantics for the raw *at calls of the oracle twin".into(), "small-scope hypothesis (names a,b,x; depth <= 3)".into(), "kernel-without-openat2 simulated by seccomp ENOSYS".into()],
